@@ -11,6 +11,8 @@ def P(level, clauses, models, quick, thorough, required=None, **kw):
 
 
 RT = {"module": "MC_roundtrip", "quick": "MC_roundtrip_quick.cfg", "thorough": "MC_roundtrip.cfg", "timeout": {"quick": 300, "thorough": 2400}}
+SH = {"module": "MC_shapes", "quick": "MC_shapes_quick.cfg", "thorough": "MC_shapes.cfg", "timeout": {"quick": 200, "thorough": 600}}
+REPLAY_SH = {"driver": "replay", "scn": "MC_shapes", "args": {"n": 100000, "matrix": 1}}
 REPLAY_RT_Q = {"driver": "replay", "scn": "MC_roundtrip", "args": {"n": 500, "matrix": 1}}
 REPLAY_RT_T = {"driver": "replay", "scn": "MC_roundtrip", "args": {"n": 20000, "matrix": 1}}
 
@@ -19,9 +21,9 @@ PLANS = {
         "model_checking",
         ["issue.accept", "holder.new", "present.ok", "verify.accept", "verify.view", "verify.claims", "verify.clean",
          "scn.expect.reject", "scn.expect.claims", "scn.model.agrees"],
-        [RT],
-        [REPLAY_RT_Q, {"driver": "rich", "args": {"n": 700, "depth": 5, "arbsel": 0}}, {"driver": "repotests"}],
-        [REPLAY_RT_T, {"driver": "rich", "args": {"n": 20000, "depth": 8, "arbsel": 0}}, {"driver": "repotests"}],
+        [RT, SH],
+        [REPLAY_RT_Q, REPLAY_SH, {"driver": "rich", "args": {"n": 700, "depth": 5, "arbsel": 0}}, {"driver": "repotests"}],
+        [REPLAY_RT_T, REPLAY_SH, {"driver": "rich", "args": {"n": 20000, "depth": 8, "arbsel": 0}}, {"driver": "repotests"}],
         required={"verify.accept": 300, "verify.view": 300, "scn.expect.claims": 100},
         rule="cases = TLC-generated behaviours of MC_roundtrip replayed over a key/format matrix + seeded random claim trees "
              "(Unicode incl. non-BMP, empty containers, u64/i64/f64, depth <= 8) x strategies x type-consistent selections; "
@@ -31,9 +33,9 @@ PLANS = {
     "C05": P(
         "model_checking",
         ["issue.exact", "issue.refs", "issue.refuse.path", "issue.shape", "issue.wellformed", "issue.accept"],
-        [RT],
-        [REPLAY_RT_Q, {"driver": "rich", "args": {"n": 900, "depth": 5, "arbsel": 0, "only": "issue"}}, {"driver": "repotests"}],
-        [REPLAY_RT_T, {"driver": "rich", "args": {"n": 30000, "depth": 8, "arbsel": 0, "only": "issue"}}, {"driver": "repotests"}],
+        [RT, SH],
+        [REPLAY_RT_Q, REPLAY_SH, {"driver": "rich", "args": {"n": 900, "depth": 5, "arbsel": 0, "only": "issue"}}, {"driver": "repotests"}],
+        [REPLAY_RT_T, REPLAY_SH, {"driver": "rich", "args": {"n": 30000, "depth": 8, "arbsel": 0, "only": "issue"}}, {"driver": "repotests"}],
         required={"issue.exact": 500, "issue.refuse.path": 3},
         nontrivial_event="Issue",
         rule="cases = Issue events over TLC-generated (claims, strategy) pairs (every subset of paths as a Custom strategy in the "
@@ -43,9 +45,9 @@ PLANS = {
     "C06": P(
         "model_checking",
         ["present.ok", "present.exact", "present.weak", "present.jwt", "present.shape", "present.kb.none", "present.kb"],
-        [RT],
-        [REPLAY_RT_Q, {"driver": "rich", "args": {"n": 700, "depth": 5, "arbsel": 0.4}}, {"driver": "history", "args": {"random": 120}}, {"driver": "repotests"}],
-        [REPLAY_RT_T, {"driver": "rich", "args": {"n": 20000, "depth": 8, "arbsel": 0.4}}, {"driver": "history", "args": {"random": 3000}}, {"driver": "repotests"}],
+        [RT, SH],
+        [REPLAY_RT_Q, REPLAY_SH, {"driver": "rich", "args": {"n": 700, "depth": 5, "arbsel": 0.4}}, {"driver": "history", "args": {"random": 120}}, {"driver": "repotests"}],
+        [REPLAY_RT_T, REPLAY_SH, {"driver": "rich", "args": {"n": 20000, "depth": 8, "arbsel": 0.4}}, {"driver": "history", "args": {"random": 3000}}, {"driver": "repotests"}],
         required={"present.exact": 400, "present.weak": 500, "present.kb": 50},
         nontrivial_event="Present",
         rule="cases = Present events: TLC-generated type-consistent selections (every prefix length, one element too many) and seeded "
